@@ -6,6 +6,7 @@ package main
 //     (the documented way to ask for deferred presence). With force=true the harness additionally sets the session's
 //     `background` flag when the handshake did not (that is what cluster.go does for proxied sessions), so that the
 //     deferred-notification paths of the topic actor (sessToForeground, handleLeaveRequest accounting) can be driven.
+//   * actions IdleFire{t}, BgExpire{s}: the World's Unload / BgFire made robust against scheduling delays (same real timers).
 //   * record  rec["c10"]: for every user the contact table of the loaded 'me' topic (perSubs: abstract name, online,
 //     enabled) with its loaded/announced flags, for every projected loaded topic its announced flag (isLoaded) and the
 //     attached sessions with the server-side background flag and the DECLARED background status, and the per-session flags.
@@ -80,6 +81,37 @@ func verifC10ConnectBg(r *verifRunner, a map[string]any) (string, error) {
 	return "", nil
 }
 
+// IdleFire{t}: the World's Unload (fires the topic's REAL idle timer when no session is attached), but waits until the
+// hub has actually dropped the topic before the step is declared quiescent: on a loaded machine the timer goroutine
+// can be scheduled after the World's fixed 200 us pause, which would book the unload on the NEXT step.
+func verifC10IdleFire(r *verifRunner, a map[string]any) (string, error) {
+	w := r.w
+	cn := w.canon(verifStr(a, "t"))
+	if tp := w.hub.topicGet(cn); tp != nil && cn != "" && !tp.isInactive() && len(tp.sessions) == 0 {
+		tp.killTimer.Reset(time.Nanosecond)
+		deadline := time.Now().Add(3 * time.Second)
+		for w.hub.topicGet(cn) == tp && time.Now().Before(deadline) {
+			time.Sleep(100 * time.Microsecond)
+		}
+	}
+	return "", w.quiesce()
+}
+
+// BgExpire{s}: the World's BgFire (expiry of the session's background timer), waiting until the session's write loop
+// has taken the tick.
+func verifC10BgExpire(r *verifRunner, a map[string]any) (string, error) {
+	w := r.w
+	vs := w.sess[verifStr(a, "s")]
+	if vs != nil && !vs.dead && vs.s.background {
+		vs.s.bkgTimer.Reset(time.Nanosecond)
+		deadline := time.Now().Add(3 * time.Second)
+		for vs.s.background && time.Now().Before(deadline) {
+			time.Sleep(100 * time.Microsecond)
+		}
+	}
+	return "", w.quiesce()
+}
+
 func verifC10AbsContact(w *verifWorld, key string) string {
 	if strings.HasPrefix(key, "usr") {
 		if u, ok := w.uname[key]; ok {
@@ -104,7 +136,7 @@ func verifC10Record(r *verifRunner, rec map[string]any) {
 		for k := range verifC10Forced {
 			delete(verifC10Forced, k)
 		}
-	case "BgFire":
+	case "BgFire", "BgExpire":
 		// expiry of the background timer: the session is a foreground session from now on
 		delete(verifC10Decl, verifStr(act, "s"))
 	case "Disconnect":
@@ -193,5 +225,7 @@ func verifC10Record(r *verifRunner, rec map[string]any) {
 
 func init() {
 	verifExtraActions["ConnectBg"] = verifC10ConnectBg
+	verifExtraActions["IdleFire"] = verifC10IdleFire
+	verifExtraActions["BgExpire"] = verifC10BgExpire
 	verifExtraRecord = append(verifExtraRecord, verifC10Record)
 }
